@@ -1423,6 +1423,7 @@ class _Reader(object):
         icb_flags = struct.unpack_from('<H', fe, 16 + 18)[0]
         node.uid, node.gid, node.perms, node.link_count = struct.unpack_from('<IIIH', fe, 36)
         info_len = struct.unpack_from('<Q', fe, 56)[0]
+        node.blocks_recorded = struct.unpack_from('<Q', fe, 64)[0]
         if ident == 261:
             node.unique_id, l_ea, l_ad = struct.unpack_from('<QII', fe, 160)
             pos = 176
